@@ -22,7 +22,8 @@ def run_bounded(pid, tier):
     params = scope_params(tier)
     gs = grammars(params["n_prods"], 2)
     from vlib import corpus
-    extra = corpus.classic() + corpus.rule_orders()
+    extra = corpus.classic() + corpus.rule_orders() + corpus.random_grammars(
+        1200 if params["tier"] == "quick" else 12000, n_prods=(4, 5, 6))
     items = [(pid, g, params) for g in gs] + [(pid, g, dict(params, max_len=min(params["max_len"], 4))) for g in extra]
     # lexical overlap between terminals: the same grammar shapes over overlapping recognisers
     ov = dict(params)
